@@ -1796,7 +1796,11 @@ coap_send_internal(coap_session_t *session, coap_pdu_t *pdu) {
     }
   }
 
-  if (session->echo) {
+  /*
+   * RFC9175: the Echo value goes into the next request - not into whatever is
+   * sent next, which can be the Empty ACK for the very response that carried it
+   */
+  if (session->echo && COAP_PDU_IS_REQUEST(pdu)) {
     if (!coap_insert_option(pdu, COAP_OPTION_ECHO, session->echo->length,
                             session->echo->s))
       goto error;
